@@ -121,7 +121,13 @@ def lake_build(prop=None):
     # every Props module of this property (Props/<id>*.lean) is a target of its own, so that a companion file that DitModel.lean does not import yet
     # is still compiled (and a broken one fails the build instead of silently emptying the audit)
     props = ['DitModel.Props.' + m for m in (prop_files(prop) if prop else [])]
-    r = subprocess.run(['lake', 'build', 'DitModel', 'ditdriver'] + props, cwd=LEAN_DIR, capture_output=True, text=True)
+    # Two checks started at the same moment (or a developer build in the same tree) can collide on the driver's link
+    # step; a failed build is therefore repeated (twice, after a pause) before it is believed.
+    for attempt in range(3):
+        r = subprocess.run(['lake', 'build', 'DitModel', 'ditdriver'] + props, cwd=LEAN_DIR, capture_output=True, text=True)
+        if r.returncode == 0:
+            break
+        time.sleep(5 + 10 * attempt)
     return r.returncode == 0, (r.stdout + r.stderr)[-6000:], time.time() - t0
 
 
